@@ -617,6 +617,11 @@ func (w *kqueue) watchDirectoryFiles(dirPath string) error {
 			switch {
 			case errors.Is(err, unix.EACCES) || errors.Is(err, unix.EPERM):
 				cleanPath = filepath.Clean(path)
+			case errors.Is(err, os.ErrNotExist):
+				// Removed since the directory was listed, or a symlink that
+				// doesn't resolve: nothing to watch, but no reason to fail the
+				// whole directory (leaving the entries set up so far behind).
+				cleanPath = filepath.Clean(path)
 			default:
 				return fmt.Errorf("%q: %w", path, err)
 			}
